@@ -66,6 +66,9 @@ func (d *Dialer) AddTLS(conn network.Conn, tlsConfig *tls.Config) (network.Conn,
 type Client struct {
 	D  *Dialer
 	HC *http1.HostClient
+	// Tainted: a panic went through the host client; its bookkeeping (connection count, unclosed body
+	// stream) is unknown, so the client is not reused for another execution.
+	Tainted bool
 }
 
 func New(mod func(o *http1.ClientOptions)) *Client {
@@ -123,6 +126,11 @@ func (c *Client) Do(req *protocol.Request) (o RespObs) {
 	defer func() {
 		if r := recover(); r != nil {
 			o.Panic = fmt.Sprint(r)
+			c.Tainted = true
+			func() {
+				defer func() { recover() }() //nolint:errcheck
+				resp.CloseBodyStream()       //nolint:errcheck
+			}()
 		}
 	}()
 	err := c.HC.Do(context.Background(), req, resp)
@@ -261,6 +269,9 @@ func get(streaming bool) *Client {
 }
 
 func put(streaming bool, c *Client) {
+	if c.Tainted {
+		return
+	}
 	poolMu.Lock()
 	pool[streaming] = append(pool[streaming], c)
 	poolMu.Unlock()
